@@ -613,18 +613,7 @@ func c16Registration(p *Prog, r *Report) {
 				}
 			}
 			// the test precedes the Add in the same region
-			var addNode, errNode = -1, -1
-			for _, n := range f.Nodes {
-				if n.Ast == nil {
-					continue
-				}
-				if n.Ast.Pos() <= addEv.Call.Pos() && addEv.Call.End() <= n.Ast.End() {
-					addNode = n.ID
-				}
-				if n.Ast.Pos() <= errEv.Call.Pos() && errEv.Call.End() <= n.Ast.End() {
-					errNode = n.ID
-				}
-			}
+			addNode, errNode := f.NodeContaining(addEv.Call), f.NodeContaining(errEv.Call)
 			testFirst := addNode >= 0 && errNode >= 0 && f.MustPrecede(setOf([]int{errNode}), addNode)
 			r.Check(common != "" && testFirst, "C16.d", cons, p.pos(addEv.Call), "Send tests the pool context and registers in sendWg under "+common+", Stop cancels under its write lock and waits outside it",
 				fmt.Sprintf("Send's sendWg.Add(1) is not ordered against Stop's sendWg.Wait(): Add holds %s, the context test holds %s, Stop cancels under %s. A Send that registers after Stop found the counter at zero misuses the WaitGroup and panics (\"WaitGroup is reused before previous Wait has returned\"), or registers after Stop has passed the wait", heldString(addEv.Held), heldString(errEv.Held), heldString(cancelHeld)))
